@@ -162,6 +162,73 @@ impl<'a, Registry: crate::Registry, Filter, Views, Indices> Iter<'a, Registry, F
 }
 '''
 
+
+PAR_PRELUDE = r'''
+// ---- unit qiter, parallel leg: externals of query/result/par_iter.rs (rayon plumbing, A11)
+/// rayon's `Consumer::Result` of the user's consumer, as the multiset of items that went into it
+#[verifier::external_body]
+#[verifier::accept_recursive_types(R)]
+pub struct VxParResult<R: Registry> { p: PhantomData<R> }
+impl<R: Registry> VxParResult<R> { pub uninterp spec fn items(&self) -> vstd::multiset::Multiset<VxItemId<R>>; }
+#[verifier::external_body]
+#[verifier::accept_recursive_types(R)]
+pub struct VxReducer<R: Registry> { p: PhantomData<R> }
+impl<R: Registry> VxReducer<R> {
+    /// rayon `Reducer::reduce`: the union of what both sides consumed
+    #[verifier::external_body]
+    pub fn reduce(self, a: VxParResult<R>, b: VxParResult<R>) -> (r: VxParResult<R>)
+        ensures r.items() == a.items().add(b.items()) { unimplemented!() }
+}
+#[verifier::external_body]
+#[verifier::accept_recursive_types(R)]
+pub struct VxParFolder<R: Registry> { p: PhantomData<R> }
+impl<R: Registry> VxParFolder<R> {
+    /// a folder that was fed nothing completes to the empty result
+    #[verifier::external_body]
+    pub fn complete(self) -> (r: VxParResult<R>) ensures r.items() == vstd::multiset::Multiset::<VxItemId<R>>::empty() { unimplemented!() }
+}
+/// the user's rayon consumer
+#[verifier::external_body]
+#[verifier::accept_recursive_types(R)]
+pub struct VxConsumer<R: Registry> { p: PhantomData<R> }
+impl<R: Registry> VxConsumer<R> {
+    #[verifier::external_body]
+    pub fn split_off_left(&self) -> (r: VxConsumer<R>) { unimplemented!() }
+    #[verifier::external_body]
+    pub fn to_reducer(&self) -> (r: VxReducer<R>) { unimplemented!() }
+    #[verifier::external_body]
+    pub fn into_folder(self) -> (r: VxParFolder<R>) { unimplemented!() }
+    #[verifier::external_body]
+    pub fn full(&self) -> (r: bool) { unimplemented!() }
+}
+/// R6: the parallel row iterator of one table (`Archetype::par_view(..).reshape().into_parallel_iterator()`;
+/// K-parview decides the columns per instance)
+#[verifier::external_body]
+#[verifier::accept_recursive_types(R)]
+#[verifier::accept_recursive_types(V)]
+pub struct VxParRows<R: Registry, V> { p: PhantomData<(R, V)> }
+impl<R: Registry, V> VxParRows<R, V> {
+    pub uninterp spec fn items(&self) -> Seq<VxItemId<R>>;
+    /// rayon drives every item of an indexed parallel iterator into the consumer exactly once
+    #[verifier::external_body]
+    pub fn drive_unindexed(self, consumer: VxConsumer<R>) -> (r: VxParResult<R>)
+        ensures r.items() == self.items().to_multiset() { unimplemented!() }
+}
+#[verifier::external_body]
+pub fn vx_par_view_rows<R: Registry, V>(t: &mut archetype::Archetype<R>) -> (r: VxParRows<R, V>)
+    ensures r.items() == vx_items_of(*old(t)), *final(t) == *old(t)
+{ unimplemented!() }
+'''
+
+PAR_SPEC = r'''
+impl<Registry: crate::Registry, Filter, Views, Indices> ResultsFolder<VxConsumer<Registry>, VxParResult<Registry>, Filter, Views, Indices> {
+    /// C09: what this folder has driven into the user's consumer so far
+    pub open spec fn acc(&self) -> vstd::multiset::Multiset<VxItemId<Registry>> {
+        match self.previous { Some(p) => p.items(), None => vstd::multiset::Multiset::empty() }
+    }
+}
+'''
+
 FILTER_RE = (r"unsafe \{\s*<Registry as ContainsFilterSealed<\s*And<Views, Filter>,\s*And<Registry::ViewsFilterIndices, Registry::FilterIndices>,?\s*>>::filter\(archetype\.identifier\(\)\)\s*\}")
 VIEW_RE = (r"unsafe \{\s*archetype\.view::<Views, \(\s*Registry::ViewsContainments,\s*Registry::ViewsIndices,\s*Registry::ViewsCanonicalContainments,?\s*\)>\(\)\s*\}\s*\.reshape\(\)\s*\.into_iterator\(\)")
 
@@ -226,6 +293,28 @@ def build():
                   Hint("before", "proof { assert(fold.seen() =~= vx_s0 + self.pending()); }", anchor=r"\(acc, fold\)\s*$")],
            props=["C03"]),
     ])
+
+    # ---- parallel leg: the folder rayon feeds tables into (query/result/par_iter.rs)
+    PI = "src/query/result/par_iter.rs"
+    u.text(PAR_PRELUDE)
+    u.struct(PI, "ResultsFolder")
+    u.text(PAR_SPEC)
+    FHDR = "impl<Registry: crate::Registry, Filter, Views, Indices> ResultsFolder<VxConsumer<Registry>, VxParResult<Registry>, Filter, Views, Indices>"
+    F_IMPL = r"^impl<'a, Consumer, Registry, Filter, Views, Indices> Folder<&'a mut Archetype<Registry>>\s*for ResultsFolder<Consumer, Consumer::Result, Filter, Views, Indices>"
+    u.impl(FHDR, [
+        Fn(PI, F_IMPL, "consume", ret="r", vis="pub", generics="", where="",
+           params="self, archetype: &mut archetype::Archetype<Registry>",
+           rewrites=[(r"(?:unsafe \{ archetype\.par_view::<Views, _, _, _>\(\) \}|\(archetype\.par_view::<Views, _, _, _>\(\)\))\s*\.reshape\(\)\s*\.into_parallel_iterator\(\)", "vx_par_view_rows::<Registry, Views>(archetype)",
+                      "R6: `Archetype::par_view::<Views, ..>().reshape().into_parallel_iterator()` -> assumed-contract call: one item per stored row (K-parview decides the columns per instance)")],
+           ensures=[("C09.folder.consume", "r.acc() == self.acc().add(if vx_matches::<Registry, Filter, Views>(*old(archetype)) { vx_items_of(*old(archetype)).to_multiset() } else { vstd::multiset::Multiset::empty() })"),
+                    ("C09.folder.table_kept", "*final(archetype) == *old(archetype)")],
+           props=["C09"]),
+        Fn(PI, F_IMPL, "complete", ret="r", vis="pub", generics="", where="", ret_type="VxParResult<Registry>",
+           ensures=[("C09.folder.complete", "r.items() == self.acc()")],
+           props=["C09"]),
+        Fn(PI, F_IMPL, "full", ret="r", vis="pub", generics="", where="", props=["C09"]),
+    ])
+    u.label_props.update({"C09": ["C09"]})
     u.pre_rewrites += [
         (FILTER_RE, "vx_filter::<Registry, Filter, Views>(archetype)", "R6: the type-level filter `ContainsFilterSealed<And<Views, Filter>, ..>::filter` on the table's identifier -> assumed-contract call (K-view decides the filter tables per instance)"),
         (VIEW_RE, "vx_view_rows::<Registry, Views>(archetype)", "R6: `Archetype::view::<Views, ..>().reshape().into_iterator()` -> assumed-contract call: one item per stored row (K-view decides the cells per instance)"),
